@@ -4,41 +4,25 @@ implementation is left in) and to generate coq/Findings/C13.v (tools/c13_mkcoq.p
 
 site: the model's taint name; loc: a location whose view differs after the failing call (for the Coq witness)."""
 
-FINDINGS = [
-    {'key': 'set-collection-kwarg-not-undone', 'site': 'TSetReverse', 'schema': 'S1', 'loc': 'LItem 0 7 1',
-     'what': 'obj.set(tags=[t], deps=[]) raising on deps leaves obj.tags == [t] on this side (Set.__set__ called with undo_funcs mutates '
-             'setdata after its try block) while t.aa does not contain obj; the link row is inserted at commit',
-     'ops': [["new", 0, 1, [[5, ["i", 0]]]], ["new", 2, 1, []], ["new", 5, 1, [[1, ["o", 0]]]],
-             ["setm", 0, [[7, ["os", [1]]], [10, ["os", []]]]]]},
-    {'key': 'delete-refused-after-collection-cleared', 'site': 'TSetReverse', 'schema': 'S1', 'loc': 'LItem 0 7 1',
-     'what': 'obj.delete() refused with ConstraintError (required dependents, no cascade) has already emptied obj.tags on this side '
-             '(other side still lists obj) and queued the removal: the next commit deletes the link row',
-     'ops': [["new", 0, 1, [[5, ["i", 0]]]], ["new", 2, 1, [[1, ["os", [0]]]]], ["new", 5, 1, [[1, ["o", 0]]]], ["commit"], ["del", 0]]},
-    {'key': 'delete-nested-cascade-undo-order', 'site': 'TDelNested', 'schema': 'S1', 'loc': 'LStatus 1',
-     'what': "a refused delete() that had cascaded two levels deep undoes in the wrong order (_delete_ appends its closure before the nested "
-             "calls but pushes on objects_to_save after them): AssertionError replaces ConstraintError, child and grandchild stay "
-             "'marked_to_delete' and the grandchild row is deleted at commit",
-     'ops': [["new", 0, 1, [[5, ["i", 0]]]], ["new", 4, 1, [[1, ["o", 0]]]], ["new", 6, 1, [[1, ["o", 1]]]], ["new", 5, 1, [[1, ["o", 0]]]],
-             ["commit"], ["del", 0]]},
-    {'key': 'delete-refused-drops-pending-insert', 'site': 'TDelCreated', 'schema': 'S1', 'loc': 'LSavePos 2',
-     'what': "a refused delete() that had cascaded to an unsaved ('created') child restores its status but not its objects_to_save slot "
-             "(undo only handles 'marked_to_delete'): the child is never inserted by later commits",
-     'ops': [["new", 0, 1, [[5, ["i", 0]]]], ["new", 5, 1, [[1, ["o", 0]]]], ["commit"], ["new", 4, 1, [[1, ["o", 0]]]], ["del", 0]]},
-    {'key': 'failed-constructor-leaves-primary-key', 'site': 'TNewPk', 'schema': 'S1', 'loc': 'LIdx 3 [0] [VInt 2]',
-     'what': 'a constructor with an explicit primary key that raises after _get_from_identity_map_ (e.g. ConstraintError from a one-to-one '
-             'reverse update) leaves the half-built object registered under that key: E[pk] / E.get(pk) return it, a retry with the same key '
-             'fails with CacheIndexError',
-     'ops': [["new", 0, 1, [[5, ["i", 0]]]], ["new", 3, 1, [[1, ["o", 0]]]], ["new", 3, 2, [[1, ["o", 0]]]]]},
-    {'key': 'reverse-remove-undo-reads-loop-variable', 'site': 'TRemFlag', 'schema': 'S3', 'loc': 'LAdded 0 1 1',
-     'what': "Set.reverse_remove's undo_func uses the loop variable in_added of the last object for every object: a refused delete() of an "
-             "object linked to one saved and one new partner raises AttributeError ('NoneType' has no 'add') from inside the undo and "
-             "leaves both collections half restored",
-     'ops': [["new", 0, 1, []], ["new", 1, 1, [[1, ["os", [0]]]]], ["new", 2, 1, [[1, ["o", 1]]]], ["commit"],
-             ["new", 0, 2, [[1, ["os", [1]]]]], ["del", 1]]},
-]
+FINDINGS = []
 
 # failing calls the undo protocol handles correctly (state must be restored exactly): replayed on every run, with every fault k
 CLEAN = [
+    {'name': 'set-collection-kwarg-not-undone', 'schema': 'S1',       # formerly a finding; repaired in /repo
+     'ops': [["new", 0, 1, [[5, ["i", 0]]]], ["new", 2, 1, []], ["new", 5, 1, [[1, ["o", 0]]]],
+             ["setm", 0, [[7, ["os", [1]]], [10, ["os", []]]]]]},
+    {'name': 'delete-refused-after-collection-cleared', 'schema': 'S1',       # formerly a finding; repaired in /repo
+     'ops': [["new", 0, 1, [[5, ["i", 0]]]], ["new", 2, 1, [[1, ["os", [0]]]]], ["new", 5, 1, [[1, ["o", 0]]]], ["commit"], ["del", 0]]},
+    {'name': 'delete-nested-cascade-undo-order', 'schema': 'S1',       # formerly a finding; repaired in /repo
+     'ops': [["new", 0, 1, [[5, ["i", 0]]]], ["new", 4, 1, [[1, ["o", 0]]]], ["new", 6, 1, [[1, ["o", 1]]]], ["new", 5, 1, [[1, ["o", 0]]]],
+             ["commit"], ["del", 0]]},
+    {'name': 'delete-refused-drops-pending-insert', 'schema': 'S1',       # formerly a finding; repaired in /repo
+     'ops': [["new", 0, 1, [[5, ["i", 0]]]], ["new", 5, 1, [[1, ["o", 0]]]], ["commit"], ["new", 4, 1, [[1, ["o", 0]]]], ["del", 0]]},
+    {'name': 'failed-constructor-leaves-primary-key', 'schema': 'S1',       # formerly a finding; repaired in /repo
+     'ops': [["new", 0, 1, [[5, ["i", 0]]]], ["new", 3, 1, [[1, ["o", 0]]]], ["new", 3, 2, [[1, ["o", 0]]]]]},
+    {'name': 'reverse-remove-undo-reads-loop-variable', 'schema': 'S3',       # formerly a finding; repaired in /repo
+     'ops': [["new", 0, 1, []], ["new", 1, 1, [[1, ["os", [0]]]]], ["new", 2, 1, [[1, ["o", 1]]]], ["commit"],
+             ["new", 0, 2, [[1, ["os", [1]]]]], ["del", 1]]},
     # many-to-many: remove(t1) then assignment that re-adds t1, adds t3 and drops t2 - pending added/removed must stay in sync
     # (repo 83f8eb8; before it the removal of t2 was recorded in a stale local and its DELETE was lost), then a refused call
     {'name': 'm2m-remove-then-assign-bookkeeping', 'schema': 'S1',
